@@ -3,4 +3,5 @@ pub mod model;
 pub mod node;
 pub mod props;
 pub mod report;
+pub mod sched;
 pub mod transport;
